@@ -432,6 +432,53 @@ def _rand_shape(rnd, start):
     return s
 
 
+def _shape_oracle(start, sh, res, stats=None):
+    """native oracle for ONE tracer call on the real builder (both distance modes): -> list of violations (dicts with 'property' and 'why')"""
+    stats = stats if stats is not None else {"shapes": 0, "c11_pairs": 0, "c12_constant_speed": 0}
+    bad = []
+    try:
+        va = _trace_vertices(start, sh, False, res); vr = _trace_vertices(start, sh, True, res)
+    except Exception as e:
+        return [{"shape": sh, "start": start, "why": f"raised {type(e).__name__}: {e}"}]
+    stats["shapes"] += 1
+    # C11: same vertices in both distance modes
+    stats["c11_pairs"] += 1
+    # relative mode rounds every offset to the configured 9 decimals: the error accumulates linearly with the number of segments
+    tol = 1e-6 + 1e-9 * len(va)
+    if len(va) != len(vr) or any(max(abs(a - b) for a, b in zip(p, q)) > tol for p, q in zip(va, vr)):
+        return [{"property": "C11", "shape": sh, "start": start, "resolution": res, "abs": va[:3], "rel": vr[:3], "why": "absolute and relative runs differ"}]
+    tgt = sh.get("target") or (sh.get("points") or [start])[-1] if sh["kind"] != "circle" else start
+    if max(abs(a - b) for a, b in zip(va[-1], tgt)) > 1e-6:
+        return [{"property": "C10", "shape": sh, "start": start, "why": f"ends on {va[-1]} instead of {tgt}"}]
+    if sh["kind"] in ("arc", "circle"):
+        cx, cy = sh["c"]
+        if any(abs(math.hypot(p[0] - cx, p[1] - cy) - sh["r"]) > 1e-6 * max(1.0, sh["r"]) for p in va):
+            return [{"property": "C10", "shape": sh, "start": start, "why": "vertex off the circle"}]
+    if sh["kind"] == "thread":
+        mx, my = (start[0] + sh["target"][0]) / 2, (start[1] + sh["target"][1]) / 2
+        r0 = math.hypot(start[0] - mx, start[1] - my)
+        if any(abs(math.hypot(p[0] - mx, p[1] - my) - r0) > 1e-6 * max(1.0, r0) for p in va):
+            return [{"property": "C10", "shape": sh, "start": start, "why": "thread radius not constant"}]
+    if sh["kind"] == "spline":
+        ctrl = sh["points"]; j = 0
+        for c in ctrl:            # every control point, in order, within one resolution of some vertex
+            while j < len(va) and math.dist(va[j], c) > res: j += 1
+            if j == len(va): return [{"property": "C10", "shape": sh, "start": start, "resolution": res, "why": f"control point {c} not approached within one resolution, in order"}]
+    if sh["kind"] == "polyline" and (len(va) != len(sh["points"]) or any(max(abs(a - b) for a, b in zip(p, q)) > 1e-6 for p, q in zip(va, sh["points"]))):
+        return [{"property": "C10", "shape": sh, "start": start, "why": "polyline does not visit exactly the given points"}]
+    # C12
+    if sh["kind"] in ("arc", "circle", "arc_radius") and len(va) >= 4:
+        # (for steep helical arcs the chord/arc ratio is still ~1: the bound applies to the 3-D segment length)
+        stats["c12_constant_speed"] += 1
+        segs = [math.dist(p, q) for p, q in zip([start] + va[:-1], va)]
+        if max(segs) > 1.05 * res + 1e-9 or min(segs[1:-1]) < 0.85 * res:
+            return [{"property": "C12", "shape": sh, "start": start, "resolution": res, "max": max(segs), "min_interior": min(segs[1:-1]), "why": "segment length outside about [0.9, 1] resolution"}]
+    vh = _trace_vertices(start, sh, False, res / 2)
+    if len(vh) < len(va):
+        return [{"property": "C12", "shape": sh, "start": start, "resolution": res, "why": f"halving the resolution gave fewer segments ({len(vh)} < {len(va)})"}]
+    return bad
+
+
 def _tracer_bounded(tier, seed):
     rnd = random.Random(seed or 1)
     n = 40 if tier == "quick" else 3000
@@ -441,47 +488,8 @@ def _tracer_bounded(tier, seed):
         start = (rnd.uniform(-40, 40), rnd.uniform(-40, 40), rnd.uniform(-5, 5))
         sh = _rand_shape(rnd, start)
         res = rnd.choice([0.05, 0.1, 0.5, 1.0, 2.0])
-        try:
-            va = _trace_vertices(start, sh, False, res); vr = _trace_vertices(start, sh, True, res)
-        except Exception as e:
-            bad.append({"shape": sh, "start": start, "why": f"raised {type(e).__name__}: {e}"}); break
-        stats["shapes"] += 1
-        # C11: same vertices in both distance modes
-        stats["c11_pairs"] += 1
-        # relative mode rounds every offset to the configured 9 decimals: the error accumulates linearly with the number of segments
-        tol = 1e-6 + 1e-9 * len(va)
-        if len(va) != len(vr) or any(max(abs(a - b) for a, b in zip(p, q)) > tol for p, q in zip(va, vr)):
-            bad.append({"property": "C11", "shape": sh, "start": start, "resolution": res, "abs": va[:3], "rel": vr[:3], "why": "absolute and relative runs differ"}); break
-        tgt = sh.get("target") or (sh.get("points") or [start])[-1] if sh["kind"] != "circle" else start
-        if max(abs(a - b) for a, b in zip(va[-1], tgt)) > 1e-6:
-            bad.append({"property": "C10", "shape": sh, "start": start, "why": f"ends on {va[-1]} instead of {tgt}"}); break
-        if sh["kind"] in ("arc", "circle"):
-            cx, cy = sh["c"]
-            if any(abs(math.hypot(p[0] - cx, p[1] - cy) - sh["r"]) > 1e-6 for p in va):
-                bad.append({"property": "C10", "shape": sh, "start": start, "why": "vertex off the circle"}); break
-        if sh["kind"] == "thread":
-            mx, my = (start[0] + sh["target"][0]) / 2, (start[1] + sh["target"][1]) / 2
-            r0 = math.hypot(start[0] - mx, start[1] - my)
-            if any(abs(math.hypot(p[0] - mx, p[1] - my) - r0) > 1e-6 for p in va):
-                bad.append({"property": "C10", "shape": sh, "start": start, "why": "thread radius not constant"}); break
-        if sh["kind"] == "spline":
-            ctrl = sh["points"]; j = 0
-            for c in ctrl:            # every control point, in order, within one resolution of some vertex
-                while j < len(va) and math.dist(va[j], c) > res: j += 1
-                if j == len(va): bad.append({"property": "C10", "shape": sh, "start": start, "resolution": res, "why": f"control point {c} not approached within one resolution, in order"}); break
-            if bad: break
-        if sh["kind"] == "polyline" and (len(va) != len(sh["points"]) or any(max(abs(a - b) for a, b in zip(p, q)) > 1e-6 for p, q in zip(va, sh["points"]))):
-            bad.append({"property": "C10", "shape": sh, "start": start, "why": "polyline does not visit exactly the given points"}); break
-        # C12
-        if sh["kind"] in ("arc", "circle", "arc_radius") and len(va) >= 4:
-            # (for steep helical arcs the chord/arc ratio is still ~1: the bound applies to the 3-D segment length)
-            stats["c12_constant_speed"] += 1
-            segs = [math.dist(p, q) for p, q in zip([start] + va[:-1], va)]
-            if max(segs) > 1.05 * res + 1e-9 or min(segs[1:-1]) < 0.85 * res:
-                bad.append({"property": "C12", "shape": sh, "start": start, "resolution": res, "max": max(segs), "min_interior": min(segs[1:-1]), "why": "segment length outside about [0.9, 1] resolution"}); break
-        vh = _trace_vertices(start, sh, False, res / 2)
-        if len(vh) < len(va):
-            bad.append({"property": "C12", "shape": sh, "start": start, "resolution": res, "why": f"halving the resolution gave fewer segments ({len(vh)} < {len(va)})"}); break
+        bad = _shape_oracle(start, sh, res, stats)
+        if bad: break
     return bad, stats, n
 
 
